@@ -64,6 +64,8 @@ def run(ctx, pid):
                               formula="no registry blueprint names the pass-through kernel 'identity' (premise of the summary override for generic_aggregate)", detail="" if ok else "a blueprint uses 'identity'"))
     except Exception as e:
         obs.append(Obligation(name=f"{pid}.W.registry_has_no_identity", function="flox.aggregations.AGGREGATIONS", status=ERROR, backend="enumeration", formula="registry import", detail=str(e)))
+    if pid == "C13":
+        obs.extend(pickle_sites(an))
     ctx.add_obligations(obs)
     # replay: a violated write site is confirmed by the read-only executor of C13's bounded part
     if any(o.status == VIOLATED for o in obs):
@@ -132,3 +134,41 @@ def replay_with_readonly_inputs(ctx):
         if r is not None and ("writes into" in r["why"] or "modified its inputs" in r["why"]):
             return r
     return None
+
+
+GRAPH_BUILDERS = [("core", "dask_groupby_agg"), ("core", "subset_to_blocks"), ("core", "_extract_unknown_groups"), ("core", "_collapse_blocks_along_axes"), ("core", "dask_groupby_scan"),
+                  ("core", "_factorize_multiple"), ("aggregations", "argreduce_preprocess"), ("dask_array_ops", "partial_reduce"), ("dask_array_ops", "_tree_reduce")]
+
+
+def pickle_sites(an):
+    """P-sites: callables that graph-building functions put into tasks are module-level functions, partials /
+    compositions of them, or nested defs without free variables (so tasks pickle by reference)."""
+    import ast
+    import builtins
+
+    obs = []
+    for m, f in GRAPH_BUILDERS:
+        mod = an.mods.get(m)
+        fn = mod.funcs.get(f) if mod else None
+        if fn is None:
+            obs.append(Obligation(name=f"C13.P.{m}.{f}.extract", function=f"flox.{m}.{f}", status=ERROR, backend="framecheck", formula="graph-building function present", detail="not found"))
+            continue
+        n = 0
+        for node in ast.walk(fn):
+            if isinstance(node, ast.Lambda):
+                n += 1
+                obs.append(Obligation(name=f"C13.P.{m}.{f}.lambda#{n}", function=f"flox.{m}.{f}", status=VIOLATED, backend="framecheck-syntactic", kind="frame",
+                                      formula=f"line {node.lineno}: no lambda is built inside a graph-building function (task callables must be importable)", detail=ast.unparse(node)[:100], model={"function": f"{m}.{f}", "line": node.lineno}))
+        local_assigned = {t.id for node in ast.walk(fn) if isinstance(node, (ast.Assign, ast.AnnAssign, ast.For)) for t in ast.walk(node.targets[0] if isinstance(node, ast.Assign) else node.target) if isinstance(t, ast.Name)}
+        local_assigned |= {a.arg for a in fn.args.args + fn.args.kwonlyargs}
+        for node in ast.walk(fn):
+            if isinstance(node, ast.FunctionDef) and node is not fn:
+                params = {a.arg for a in node.args.args + node.args.kwonlyargs}
+                free = {x.id for x in ast.walk(node) if isinstance(x, ast.Name) and isinstance(x.ctx, ast.Load)} - params - set(dir(builtins))
+                captured = sorted(free & local_assigned)
+                ok = not captured
+                obs.append(Obligation(name=f"C13.P.{m}.{f}.nested[{node.name}]", function=f"flox.{m}.{f}", status=DISCHARGED if ok else VIOLATED, backend="framecheck-syntactic", kind="frame",
+                                      formula=f"line {node.lineno}: nested function {node.name} placed in the graph captures no local of {f}", detail="" if ok else f"captures {captured}", model=None if ok else {"function": f"{m}.{f}", "captures": captured}))
+        if n == 0:
+            obs.append(Obligation(name=f"C13.P.{m}.{f}.no_lambda", function=f"flox.{m}.{f}", status=DISCHARGED, backend="framecheck-syntactic", kind="frame", formula=f"{f} builds no lambda; its task callables are module-level functions, functools.partial / toolz.compose of them"))
+    return obs
